@@ -1096,3 +1096,45 @@ def preprocess_transcription(ctx, rule, which):
         ctx.ob(rule, "preprocessing/%s/%s" % (which, k), False, d, "%s tokenizer get_preprocessed_char" % which)
     ctx.ob(rule, "preprocessing/%s" % which, not bad and n >= 100, ("%d cells agree with the transcription of 'preprocessing the input stream'" % n) if not bad else ("%d cells compared, %d kind(s) of disagreement" % (n, len(bad))), "%s tokenizer get_preprocessed_char" % which)
     return n
+
+
+def feed_facts(ctx, rule, which):
+    """feed(): (a) its answer is run()'s answer, unchanged, on every path that runs the machine (an EncodingIndicator or a script
+    pause that arrives with the queue empty is still reported); (b) the BOM test drops at most ONE character - feed() has no
+    loop and calls input.next() once"""
+    from lib.ast import walk
+    T = ctx.tables(which)
+    pcs = T["helpers"].get("feed")
+    if not pcs:
+        raise AnchorMissing("feed not tabulated")
+    bad = None
+    n = 0
+    for pc in pcs:
+        names = [a for a, _ in pc["actions"]]
+        if "run" in names:
+            n += 1
+            insp = [k for k in pc["guards"] if k.startswith("self.run() matches") or k.startswith("self.run()#")]
+            if insp:
+                # (the table's guards are evaluated as pure queries, so a test like `if input.is_empty()` AFTER run() cannot be
+                # followed reliably; a feed() that looks into run()'s answer at all is reported)
+                bad = bad or "feed() inspects what run() answered (%s) instead of handing it on" % insp[0]
+            if str(pc["ret"]) != "self.run()":
+                bad = bad or "a path of feed() that ran the machine answers %s instead of what run() answered (guards %s)" % (pc["ret"], [k for k in pc["guards"]][-2:])
+    ctx.ob(rule, "feed-answers-what-run-answered/%s" % which, bad is None and n >= 2, bad or "%d running paths return run()'s answer" % n, "%s tokenizer feed" % which)
+    crate = "html5ever" if which == "html" else "xml5ever"
+    ty = "Tokenizer" if which == "html" else "XmlTokenizer"
+    its = [it for it in ctx.ast.walkable(crate) if it["k"] == "Fn" and it["name"] == "feed" and (it.get("self_ty") or "").replace(" ", "").startswith(ty) and it.get("body") is not None]
+    if len(its) != 1:
+        raise AnchorMissing("%s::feed" % ty)
+    loops, nexts = [], []
+
+    def f(nd):
+        if nd.get("k") in ("While", "Loop", "For", "ForLoop", "WhileLet"):
+            loops.append(nd["k"])
+        if nd.get("k") == "MethodCall" and nd["m"] in ("next", "pop_front", "pop_front_char") :
+            nexts.append(nd["m"])
+    walk({"k": "Block", "body": its[0]["body"]} if isinstance(its[0]["body"], list) else its[0]["body"], f)
+    ok = not loops and len(nexts) <= 1
+    ctx.ob(rule, "bom-at-most-one-character/%s" % which, ok, "feed() drops at most one character (no loop, %d consuming call)" % len(nexts) if ok else
+           "feed() consumes input in a loop or more than once (%s, %s): only the very first character of the stream can be a byte order mark - a second U+FEFF is text" % (loops, nexts),
+           "%s tokenizer feed" % which)
